@@ -20,8 +20,7 @@ Local Open Scope N_scope.
 Inductive res :=
 | ROk (v : value)
 | RErr                 (* ExpressionError (wrong argument type, range error, ...) *)
-| RUnmodelled.         (* input outside what this model covers (regex patterns, invalid UTF-8 in the
-                          case-insensitive starts_with, flatten of objects): nothing is claimed *)
+| RUnmodelled.         (* input outside what this model covers (regex patterns, flatten of objects): nothing is claimed *)
 
 (* ---------- strings as code points ---------- *)
 Definition chars (s : bytes) : list N := utf8_chars (utf8_lossy s).
@@ -227,11 +226,55 @@ Definition ci_char_eq (a b : N) : bool :=
   if (a <? 128) && (b <? 128) then ascii_lower a =? ascii_lower b
   else zip_all N.eqb (lower_cp a) (lower_cp b).
 
-(* Chars::new(starts).zip(Chars::new(bytes)).all(..) — on valid UTF-8 the hand-written `Chars` iterator yields
-   exactly the chars; on invalid UTF-8 it can panic (slice out of range / unwrap on None): not modelled *)
+(* the hand-written `Chars` iterator of starts_with.rs: the width comes from the first byte (utf8_width::get_width:
+   1 for 00..7F, 2 for C2..DF, 3 for E0..EF, 4 for F0..F4, 0 otherwise); when the `width` bytes at the position are a
+   valid UTF-8 sequence the item is that char, otherwise (width 0, too few bytes left, malformed sequence) the item
+   is Err(first byte) and the position advances by ONE byte *)
+Inductive citem := CIok (c : N) | CIerr (b : N).
+
+Fixpoint ci_items (s : bytes) : list citem :=
+  match s with
+  | [] => []
+  | b0 :: r =>
+    if b0 <? 128 then CIok b0 :: ci_items r
+    else if width2 b0 then
+      match r with
+      | b1 :: r1 => if is_cont b1 then CIok ((b0 - 192) * 64 + (b1 - 128)) :: ci_items r1
+                    else CIerr b0 :: ci_items r
+      | [] => [CIerr b0]
+      end
+    else if width3 b0 then
+      match r with
+      | b1 :: b2 :: r2 =>
+          if ok3 b0 b1 && is_cont b2
+          then CIok ((b0 - 224) * 4096 + (b1 - 128) * 64 + (b2 - 128)) :: ci_items r2
+          else CIerr b0 :: ci_items r
+      | _ => CIerr b0 :: ci_items r
+      end
+    else if width4 b0 then
+      match r with
+      | b1 :: b2 :: b3 :: r3 =>
+          if ok4 b0 b1 && is_cont b2 && is_cont b3
+          then CIok ((b0 - 240) * 262144 + (b1 - 128) * 4096 + (b2 - 128) * 64 + (b3 - 128)) :: ci_items r3
+          else CIerr b0 :: ci_items r
+      | _ => CIerr b0 :: ci_items r
+      end
+    else CIerr b0 :: ci_items r
+  end.
+
+(* the closure of `.all(..)`: chars as above, two invalid bytes match iff they are equal, a char never matches
+   an invalid byte *)
+Definition ci_item_eq (a b : citem) : bool :=
+  match a, b with
+  | CIok x, CIok y => ci_char_eq x y
+  | CIerr x, CIerr y => x =? y
+  | _, _ => false
+  end.
+
+(* Chars::new(starts).zip(Chars::new(bytes)).all(..) *)
 Definition starts_with_ci (s p : bytes) : bool :=
   if (length s <? length p)%nat then false
-  else zip_all ci_char_eq (utf8_chars p) (utf8_chars s).
+  else zip_all ci_item_eq (ci_items p) (ci_items s).
 
 Definition ends_with_cs (s p : bytes) : bool := is_suffix (utf8_lossy p) (utf8_lossy s).
 Definition ends_with_ci (s p : bytes) : bool := is_suffix (downcase p) (downcase s).
@@ -241,9 +284,7 @@ Definition contains_ci (s p : bytes) : bool := is_infix (downcase p) (downcase s
 Definition fn_starts_with (s p : value) (cs : bool) : res :=
   match s, p with
   | VBytes s, VBytes p =>
-      if cs then ROk (VBool (starts_with_cs s p))
-      else if valid_utf8 s && valid_utf8 p then ROk (VBool (starts_with_ci s p))
-      else RUnmodelled
+      ROk (VBool (if cs then starts_with_cs s p else starts_with_ci s p))
   | _, _ => RErr
   end.
 
